@@ -256,6 +256,10 @@ func SimWalk(path string, vars ...string) ([]map[string]any, error) {
 					continue
 				}
 				name, cur = rest[:eq], rest[eq+3:]
+			} else if name != "" && strings.HasPrefix(l, "\\*") {
+				// the comment line that names the action of the NEXT state ends this one
+				flush()
+				name = ""
 			} else if name != "" {
 				cur += "\n" + l
 			}
